@@ -1224,7 +1224,7 @@ def _parse_args(H_c: Hamiltonian, H_n: Hamiltonian, dt: Coefficients, **kwargs) 
     PulseSequence object.
     """
 
-    if not hasattr(dt, '__len__'):
+    if not hasattr(dt, '__len__') or isinstance(dt, (str, bytes)):
         raise TypeError(f'Expected a sequence of time steps, not {type(dt)}')
 
     dt = np.asarray(dt)
